@@ -150,7 +150,7 @@ func enumShapes(full bool, yield func(Case) bool) {
 	// members, siblings on both sides)
 	placements := []string{"top", "div", "loop",
 		"top:hyphen", "top:dotidx", "top:bracket", "top:nested", "top:tag", "top:goname",
-		"loop:struct", "loop:ptr", "vloop",
+		"loop:struct", "loop:ptr", "loop:embed", "loop:embedptr", "vloop",
 		// variables named like default template functions; booleans written as comparisons
 		"top+funcname", "vloop+funcname", "top+cmp-seq", "top+cmp-sne", "top+cmp-eq", "top+cmp-ne", "loop+cmp-sne", "loop+cmp-seq"}
 	for nElif := 0; nElif <= 3; nElif++ {
@@ -698,7 +698,7 @@ func genNest(rec *ev.Rec, open map[string]bool) func(*rapid.T) Case {
 			"funcname", "funcname", "cmp-seq", "cmp-sne", "cmp-eq", "cmp-ne"}).Draw(t, "form")
 		g.bools = isCmp(c.Form)
 		boolsOnly = g.bools
-		c.Items = rapid.SampledFrom([]string{"", "", "struct", "ptr"}).Draw(t, "items")
+		c.Items = rapid.SampledFrom([]string{"", "", "struct", "ptr", "embed", "embedptr"}).Draw(t, "items")
 		if isCmp(c.Form) {
 			// comparisons whose operand is a struct field read by its JSON tag are not generated here
 			// (the expression library does not see tags of nested structs: C13 / C17's subject)
